@@ -1,10 +1,12 @@
 import FluentProofs.SerializerOutCr2
 /-!
-# Serializer lemmas, part 24: `finishElements` for CRLF sources, after joining `"x"`, `"\n"` (C04)
+# Serializer lemmas, part 24: `finishElements` for any source, after joining `"x"`, `"\n"` (C04)
 
 `joinTop` joins, at the top level of one pattern, every text that does not end with `\n` with a directly
-following text (exactly what `nPat okSafe` does at the top level).  On the output of `get_pattern` for a
-CRLF source this merges the text in front of `\r\n` with the `"\n"` element the next iteration pushes.
+following text, unless the first ends with `\r` and the second starts with `\n` (exactly what
+`nPat okSafe` does at the top level).  On the output of `get_pattern` this merges the text in front of
+`\r\n` with the `"\n"` element the next iteration pushes; when that text itself ends with a (lone) `\r`
+(source `x\r\r\n`) the two stay apart, which is the adjacency `endsCr v && u == [10]` of `mlElems`.
 `FinOKC` is `FinOK` for the joined list.
 -/
 namespace FluentProofs.Ser
@@ -26,14 +28,19 @@ theorem okSafe_nl {v : Bytes} (h : endsNl v = true) (w : Bytes) : okSafe v w = f
     exact h0.2.1 h
   simp [okSafe, this]
 
-theorem okSafe_pend {v : Bytes} (hv : mlTextOK v = true) (h : endsNl v = false) (w : Bytes) : okSafe v w = true := by
+theorem okSafe_pend {v : Bytes} (hv : mlTextOK v = true) (h : endsNl v = false) (h13 : endsCr v = false)
+    (w : Bytes) : okSafe v w = true := by
   have : JoinOK v w := by
     refine ⟨mlTextOK_ne' hv, by simpa [endsNl] using h, ?_⟩
     intro h0
-    have hm := List.mem_of_getLast? h0.1
-    simp only [mlTextOK, Bool.and_eq_true, List.all_eq_true] at hv
-    have := hv.1.2 13 hm
-    simp at this
+    simp [endsCr, h0.1] at h13
+  simp [okSafe, this]
+
+theorem okSafe_cr {v : Bytes} (h13 : endsCr v = true) : okSafe v [10] = false := by
+  have : ¬ JoinOK v [10] := by
+    intro h0
+    simp only [endsCr, beq_iff_eq] at h13
+    exact h0.2.2 ⟨h13, rfl⟩
   simp [okSafe, this]
 
 theorem joinTop_text_nojoin (v : Bytes) (es : List (PatElem Bytes))
@@ -96,14 +103,15 @@ theorem fin_plC {s : Src} {c : Option Nat} {lnb i : Nat} {E : PSt} {e : Expr Spa
       firstI := by intro _ v es h; cases h
       firstL := by intro _ v es h; cases h }
 
-theorem mlTextOK_snoc10 {v : Bytes} (hv : mlTextOK v = true) (hn : endsNl v = false) : mlTextOK (v ++ [10]) = true := by
+theorem mlTextOK_snoc10 {v : Bytes} (hv : mlTextOK v = true) (hn : endsNl v = false) (h13 : endsCr v = false) :
+    mlTextOK (v ++ [10]) = true := by
   have hne := mlTextOK_ne' hv
   simp only [mlTextOK, Bool.and_eq_true, Bool.not_eq_true', List.isEmpty_eq_false_iff, List.all_eq_true] at hv ⊢
-  refine ⟨⟨by simp, ?_⟩, ?_⟩
+  refine ⟨⟨⟨by simp, ?_⟩, ?_⟩, ?_⟩
   · intro x hx
     simp only [List.mem_append, List.mem_singleton] at hx
     rcases hx with hx | rfl
-    · exact hv.1.2 x hx
+    · exact hv.1.1.2 x hx
     · decide
   · rw [List.dropLast_concat]
     intro x hx
@@ -111,12 +119,15 @@ theorem mlTextOK_snoc10 {v : Bytes} (hv : mlTextOK v = true) (hn : endsNl v = fa
     rw [← hsplit] at hx
     simp only [List.mem_append, List.mem_singleton] at hx
     rcases hx with hx | rfl
-    · exact hv.2 x hx
+    · exact hv.1.2 x hx
     · simp only [endsNl, beq_eq_false_iff_ne, ne_eq] at hn
       simp only [bne_iff_ne, ne_eq]
       intro h0
       apply hn
       rw [List.getLast?_eq_some_getLast hne, h0]
+  · simp only [crlfEnd, List.dropLast_concat, Bool.and_eq_false_iff]
+    right
+    simpa [endsCr] using h13
 
 /-- a text element that is kept and is not the last one (joined with a pending `"\n"`) -/
 theorem fin_text_keepC {s : Src} {c : Option Nat} {lnb i : Nat} {E E' : PSt} {ph : Placeholder}
@@ -133,9 +144,9 @@ theorem fin_text_keepC {s : Src} {c : Option Nat} {lnb i : Nat} {E E' : PSt} {ph
     FinOKC s c E (ph :: rest) (lnb + 1 - i) (joinTop (.text v :: X)) := by
   have hvne := mlTextOK_ne' hv
   -- is the tail led by the pending line feed?
-  by_cases hp : ∃ R, joinTop X = .text [10] :: R ∧ endsNl v = false
-  · obtain ⟨R, hR, hen⟩ := hp
-    rw [joinTop_text_join v [10] X R hR (okSafe_pend hv hen _)]
+  by_cases hp : ∃ R, joinTop X = .text [10] :: R ∧ endsNl v = false ∧ endsCr v = false
+  · obtain ⟨R, hR, hen, hec⟩ := hp
+    rw [joinTop_text_join v [10] X R hR (okSafe_pend hv hen hec _)]
     have hE' : E' = .afterText := by
       rcases hnt hen with h | h
       · exact h
@@ -160,7 +171,7 @@ theorem fin_text_keepC {s : Src} {c : Option Nat} {lnb i : Nat} {E E' : PSt} {ph
       exact hvne this
     exact {
       ml := by
-        rw [mlElems_text, mlTextOK_snoc10 hv hen]
+        rw [mlElems_text, mlTextOK_snoc10 hv hen hec]
         have hen2 : endsNl (v ++ [10]) = true := by simp [endsNl]
         rw [hen2]
         simp only [Bool.true_and, Bool.and_eq_true]
@@ -200,18 +211,24 @@ theorem fin_text_keepC {s : Src} {c : Option Nat} {lnb i : Nat} {E E' : PSt} {ph
         | nil => simp at hx
         | cons b v' => simpa using hx
       firstL := by intro _ w es hw; cases hw; exact hv2ne }
-  · -- no pending line feed: the text stays as it is
+  · -- no pending line feed, or a pending line feed behind a text that ends with `\r`: the text stays as it is
+    have hpend : ∀ w R, joinTop X = .text w :: R → endsNl v = false → w = [10] ∧ endsCr v = true := by
+      intro w R hR hen
+      rcases hnt hen with h | h
+      · have := hF.pendT h w R hR
+        subst this
+        refine ⟨rfl, ?_⟩
+        cases hec : endsCr v with
+        | true => rfl
+        | false => exact absurd ⟨R, hR, hen, hec⟩ hp
+      · exact absurd hR (hF.noTextG h w R)
     have hnoj : ∀ w R, joinTop X = .text w :: R → okSafe v w = false := by
       intro w R hR
       cases hen : endsNl v with
       | true => exact okSafe_nl hen w
       | false =>
-        exfalso
-        rcases hnt hen with h | h
-        · have := hF.pendT h w R hR
-          subst this
-          exact hp ⟨R, hR, hen⟩
-        · exact hF.noTextG h w R hR
+        obtain ⟨rfl, hec⟩ := hpend w R hR hen
+        exact okSafe_cr hec
     rw [joinTop_text_nojoin v X hnoj]
     exact {
       ml := by
@@ -226,12 +243,10 @@ theorem fin_text_keepC {s : Src} {c : Option Nat} {lnb i : Nat} {E E' : PSt} {ph
             | text w =>
               simp only []
               cases hen : endsNl v with
-              | true => rw [hnl]; exact hen
+              | true => rw [hnl]; simp [hen]
               | false =>
-                exfalso
-                have := hnoj w xs hB
-                rw [okSafe_pend hv hen] at this
-                cases this
+                obtain ⟨rfl, hec⟩ := hpend w xs hB hen
+                rw [hnl]; simp [hec]
         · cases hn : nlOf E with
           | false => rfl
           | true => simpa using (hls hn _).1
